@@ -53,6 +53,8 @@ def gen_spec(rng):
     # ('relpk'), or the one-to-one reference itself as the primary key ('relpk1')
     if rng.random() < 0.22:
         spec['pk'] = rng.choice(['relpk', 'relpk', 'relpk1']); spec['with_h'] = spec['with_p'] = False
+    # custom discriminator values; the root's value is FALSY (0 / ''): the class checks must not depend on its truth value
+    spec['discr'] = rng.choice([None, None, 'int', 'str']) if len(spec['parents']) > 1 else None
     return spec
 
 
@@ -66,7 +68,7 @@ class World:
         ns = mod.__dict__
         self.db = db = core.Database()
         ns['db'] = db
-        for k in ('PrimaryKey', 'Optional', 'Required', 'Set', 'composite_key'): ns[k] = getattr(core, k)
+        for k in ('PrimaryKey', 'Optional', 'Required', 'Set', 'composite_key', 'Discriminator'): ns[k] = getattr(core, k)
         n = spec['nattrs']; pk = spec['pk']; parents = spec['parents']
         L = ['class E0(db.Entity):']
         if pk == 'explicit': L.append('    id = PrimaryKey(int)')
@@ -77,11 +79,16 @@ class World:
             L[:0] = ['class Q(db.Entity):', '    id = PrimaryKey(int)', "    badge = Optional('E0')"]
         for i in range(n): L.append('    a%d = Optional(int%s)' % (i, ', unique=True' if spec['unique'][i] else ''))
         for k in spec['ckeys']: L.append('    composite_key(%s)' % ', '.join('a%d' % i for i in k))
+        dv = self.discr_values = {None: ['E%d' % c for c in range(len(parents))], 'int': [0, 1, 2], 'str': ['', 'b', 'c']}[spec.get('discr')][:len(parents)]
+        if spec.get('discr'):
+            L.append('    classtype = Discriminator(%s)' % spec['discr'])
+            L.append('    _discriminator_ = %r' % dv[0])
         L.append("    rs = Set('R', reverse='e')")
         if spec['with_h']: L.append("    h = Required('H')")
         if spec.get('with_p'): L.append("    p = Optional('P')")
         for c in range(1, len(parents)):
             L.append('class E%d(E%d):' % (c, parents[c]))
+            if spec.get('discr'): L.append('    _discriminator_ = %r' % dv[c])
             L.append("    rf = Set('R', reverse='f')" if c == 1 else '    pass')
         L += ['class R(db.Entity):', "    e = Optional(E0, reverse='rs')"]
         if len(parents) > 1: L.append("    f = Optional(E1, reverse='rf')")
@@ -177,7 +184,7 @@ class World:
         rows = con.execute(sql, params).fetchall()
         self.log[:] = saved
         npk = len(self.pk_cols); n = len(self.attrs)
-        return [{'cls': int(r[-1][1:]) if self.hier else 0, 'pk': list(r[:npk]), 'vals': list(r[npk:npk + n])} for r in rows]
+        return [{'cls': self.discr_values.index(r[-1]) if self.hier else 0, 'pk': list(r[:npk]), 'vals': list(r[npk:npk + n])} for r in rows]
     def live_index_obj(self, pk):
         return self.cache().indexes[self.pk_attrs].get(self.pkt(pk))
 
@@ -417,7 +424,7 @@ class World:
     def class_where(self, c):
         if not self.hier: return '', []
         subs = self.subclasses(c)
-        return '"classtype" in (%s)' % ', '.join("'E%d'" % d for d in subs), []
+        return '"classtype" in (%s)' % ', '.join(("'%s'" % self.discr_values[d]) if isinstance(self.discr_values[d], str) else str(self.discr_values[d]) for d in subs), []
 
     def op_get(self, op):
         """E[pk] / E.get(pk) / E.get(**kw)"""
@@ -447,6 +454,7 @@ class World:
             if op['kw']: raise StaleOp()
             b = self.qs[pk[0]]._vals_.get(self.Q.badge) if pk[0] in self.qs else None
             rel_fallback = b is not None
+            if rel_fallback and self.idx(b) < 0: raise StaleOp()
         self.log.clear()
         if op.get('how') == 'item' and pk is not None and not op['kw']:
             err, res = self.call(lambda: cls[self.pkt(pk)])
@@ -455,10 +463,15 @@ class World:
             if err is None and res is None: err = 'ObjectNotFound'
         queried = any(s.lstrip().upper().startswith('SELECT') for s in self.log)
         mops = [{'k': 'find', 'cls': op['cls'], 'pk': pk, 'kw': [list(p) for p in op['kw']]}]
+        if rel_fallback: mops.append({'k': 'findVia', 'cls': op['cls'], 'pk': pk, 'via': self.idx(b), 'kw': []})
         if queried and len(rows) == 1: mops.append(self.row_mop(rows[0], used=[a for a, _ in op['kw']]))
         ys = []
         if err is None: self.reg(res); ys = [res]
-        return {'err': err, 'yields': ys, 'mops': mops, 'queried': queried, 'nrows': len(rows), 'rel_fallback': rel_fallback}
+        out = {'err': err, 'yields': ys, 'mops': mops, 'queried': queried, 'nrows': len(rows), 'rel_fallback': rel_fallback}
+        if err is None and not isinstance(res, cls):
+            # a lookup through an entity returns an object of that entity (or a subclass) — whatever the discriminator values are
+            out['extra_bad'] = [('lookup-returned-object-of-another-class', {'asked': cls.__name__, 'got': type(res).__name__, 'pk': repr(res._pkval_)})]
+        return out
 
     def peek_candidate(self, pk, kw):
         ix = self.cache().indexes
@@ -875,10 +888,10 @@ def compare(ctx, w, spec, pop_seed, trace, steps):
             ctx.count('inferred-call-raised:%s:%s' % (op['k'], rerr))    # which row raised inside navigation / prefetch is not predicted
             merr = rerr
         if op['k'] == 'get' and res.get('rel_fallback'):
+            # the model's `findVia` (the candidate reached through the reverse one-to-one attribute) answers; no query
             ctx.count('get:answered-through-the-reverse-one-to-one')
-            if rerr != 'ObjectNotFound' or res.get('queried'):
-                ctx.divergence('lookup through the reverse one-to-one attribute', hist(i), model='ObjectNotFound without a query', impl=[rerr, res.get('queried')]); return
-            merr = rerr
+            if res.get('queried'):
+                ctx.divergence('lookup through the reverse one-to-one attribute queried the database', hist(i), model=merr, impl=[rerr, res.get('queried')]); return
         elif op['k'] == 'get':
             if merr is None and not [y for y in m['yields'] if y is not None]: merr = 'ObjectNotFound'
             if res.get('nrows', 0) > 1 and res.get('queried'): merr = 'MultipleObjectsFoundError' if merr in (None, 'ObjectNotFound') else merr
@@ -931,6 +944,7 @@ def histories_chunk(ctx, rng, nhist, nops):
             ctx.count('model-rejected:' + type(e).__name__); continue
         ctx.count('model:pk=%s,keys=%d,classes=%d%s%s' % (spec['pk'], len(w.keys), len(w.classes), ',late-failure' if spec['with_h'] else '', ',cascade-parent' if spec.get('with_p') else ''))
         if w.relpk: ctx.count('model:relationship-in-primary-key:' + w.relpk)
+        if spec.get('discr'): ctx.count('model:custom-discriminator:' + spec['discr'])
         for op, res, snap, bad in trace:
             ctx.count('call:%s:%s' % (op['k'], res['err'] or 'ok'))
             ctx.case({'model': w.model_schema, 'call': op}, nontrivial=True, kind=op['k'])
@@ -954,8 +968,8 @@ def histories_chunk(ctx, rng, nhist, nops):
         compare(ctx, w, spec, pop_seed, trace, steps)
 
 
-def _spec(n, unique, ckeys=(), pk='explicit', parents=(None,), with_h=False, with_p=False):
-    return {'nattrs': n, 'unique': list(unique), 'ckeys': [list(k) for k in ckeys], 'pk': pk, 'parents': list(parents), 'with_h': with_h, 'with_p': with_p}
+def _spec(n, unique, ckeys=(), pk='explicit', parents=(None,), with_h=False, with_p=False, discr=None):
+    return {'discr': discr, 'nattrs': n, 'unique': list(unique), 'ckeys': [list(k) for k in ckeys], 'pk': pk, 'parents': list(parents), 'with_h': with_h, 'with_p': with_p}
 
 DIRECTED = [
     # a constructor that fails AFTER the identity map was touched (repaired in /repo, 19b6b9f): no zombie under its primary key
@@ -967,6 +981,11 @@ DIRECTED = [
      [{'k': 'create', 'cls': 0, 'kw': {'id': 1, 'a0': 1, 'a1': 1}}, {'k': 'create', 'cls': 0, 'kw': {'id': 2, 'a0': 2, 'a1': 2}},
       {'k': 'set', 'o': 1, 'changes': [[0, 7], [1, 1]], 'via': 'set'}, {'k': 'create', 'cls': 0, 'kw': {'id': 3, 'a0': 7}}, {'k': 'flush'},
       {'k': 'get', 'cls': 0, 'pk': None, 'kw': [[0, 2]]}]),
+    # lookups through a SIBLING / SUBCLASS entity when the cached object's discriminator value is falsy (0): ObjectNotFound, not the object
+    ('falsy-discriminator-class-check', _spec(1, [True], parents=(None, 0, 0), discr='int'),
+     [{'k': 'create', 'cls': 0, 'kw': {'id': 1, 'a0': 1}}, {'k': 'create', 'cls': 1, 'kw': {'id': 2, 'a0': 2}}, {'k': 'flush'},
+      {'k': 'get', 'cls': 1, 'pk': [1], 'kw': [], 'how': 'item'}, {'k': 'get', 'cls': 2, 'pk': None, 'kw': [[0, 1]]},
+      {'k': 'get', 'cls': 2, 'pk': [2], 'kw': [], 'how': 'get'}, {'k': 'get', 'cls': 0, 'pk': [2], 'kw': [], 'how': 'item'}]),
     # a refused single assignment / set(): the FIRST composite key of the attribute was already moved when the SECOND one conflicts
     ('refused-assignment-second-composite', _spec(3, [False, False, False], ckeys=[[0, 1], [0, 2]]),
      [{'k': 'create', 'cls': 0, 'kw': {'id': 1, 'a0': 1, 'a1': 1, 'a2': 1}}, {'k': 'create', 'cls': 0, 'kw': {'id': 2, 'a0': 2, 'a1': 2, 'a2': 1}},
